@@ -120,6 +120,11 @@ def stress_inputs(tier):
     enum_frag_schema = "\n".join(f"enum En{i} {{ A B }}" for i in range(6)) + "\ntype Item { id: ID! " + " ".join(f"e{i}: En{i}" for i in range(6)) + " }\ntype Query { item: Item items: [Item!]! }\n"
     enum_frag_queries = "query GetItem { item { ...Fa ...Fb ...Fc } items { ...Fd ...Fe id e5 } }\n" + "\n".join(f"fragment F{c} on Item {{ e{i} }}" for i, c in enumerate("abcde")) + "\n"
     s.append(dict(label="enums_in_mixin_fragments_pruned", strategy="client", schema=enum_frag_schema, queries=enum_frag_queries, options={"include_all_enums": False, "include_all_inputs": False}))
+    # repeated and many @mixin directives on one field / fragment definition / operation-level field (the extra bases are collected per class)
+    mx = lambda *names: " ".join(f'@mixin(from: ".mixins_{n.lower()}", import: "{n}")' for n in names)
+    mixin_queries = (f"query Mixed {{ user {mx('Auditable', 'Printable', 'Auditable')} {{ id friend {mx('Zed', 'Alpha', 'Mid', 'Beta', 'Alpha')} {{ id }} }} node {mx('Printable', 'Auditable')} {{ id }} }}\n"
+                     f"query UsesFrag {{ user {{ ...MixFrag }} nodes {mx('Beta', 'Beta', 'Alpha')} {{ id }} }}\nfragment MixFrag on User {mx('Cc', 'Aa', 'Bb', 'Aa', 'Cc')} {{ id name }}\n")
+    s.append(dict(label="repeated_mixins", strategy="client", schema=corpus.SCHEMA_K, queries=mixin_queries, options={}))
     parts = split_schema()
     same = {"types.graphql": parts["b_types.graphql"], "a/types.graphql": parts["a/interfaces.graphqls"], "b/types.graphql": parts["a/deep/unions.gql"], "b/c/types.graphql": parts["z.graphql"]}
     s.append(dict(label="same_file_names_in_subdirs", strategy="client", schema=same,
